@@ -5,38 +5,38 @@ from harness.c01_ndef import lens_for
 PROPERTY = "C02"
 
 
-def t2(sx, S, prefix, rsv, oldlens, lens, long):
+def t2(sx, S, prefix, rsv, oldlens, lens, long, retry=False):
     oldlen = sx.pick("oldlen", oldlens)
     w = worlds.T2World(sx, S, prefix, [tuple(r) for r in rsv], oldlen,
                        old_lt_80=long)
     w.long_trick = long
     n = sx.pick("n", [x for x in lens_for(w.cap, lens) if x <= w.cap])
-    return ndefflow.cutflow(sx, w, n)
+    return ndefflow.cutflow(sx, w, n, retry)
 
 
-def t1(sx, hr, size, prefix, rsv, oldlens, lens, long):
+def t1(sx, hr, size, prefix, rsv, oldlens, lens, long, retry=False):
     oldlen = sx.pick("oldlen", oldlens)
     w = worlds.T1World(sx, tuple(hr), size, prefix, [tuple(r) for r in rsv], oldlen,
                        old_lt_80=long)
     w.long_trick = long
     n = sx.pick("n", [x for x in lens_for(w.cap, lens) if x <= w.cap])
-    return ndefflow.cutflow(sx, w, n)
+    return ndefflow.cutflow(sx, w, n, retry)
 
 
-def t3(sx, nbr, nbw, nmaxb, oldlens, lens, emulated):
+def t3(sx, nbr, nbw, nmaxb, oldlens, lens, emulated, retry=False):
     oldlen = sx.pick("oldlen", [o for o in oldlens if o <= nmaxb * 16])
     w = worlds.T3World(sx, nbr, nbw, nmaxb, oldlen, emulated=emulated)
     n = sx.pick("n", [x for x in lens_for(w.cap, lens) if x <= w.cap])
-    return ndefflow.cutflow(sx, w, n)
+    return ndefflow.cutflow(sx, w, n, retry)
 
 
-def t4(sx, ver, mle, mlc, mfs, oldlens, lens, typ, fsci):
+def t4(sx, ver, mle, mlc, mfs, oldlens, lens, typ, fsci, retry=False):
     oldlen = sx.pick("oldlen", oldlens)
     mle = sx.int("mle", mle[0], mle[1])
     mlc = sx.int("mlc", mlc[0], mlc[1])
     w = worlds.T4World(sx, ver, mle, mlc, mfs, oldlen, typ=typ, fsci=fsci)
     n = sx.pick("n", [x for x in lens_for(w.cap, lens) if x <= w.cap])
-    return ndefflow.cutflow(sx, w, n)
+    return ndefflow.cutflow(sx, w, n, retry)
 
 
 def partitions(tier):
@@ -97,15 +97,36 @@ def partitions(tier):
         parts.append(dict(name="t2:48:%s:ctl" % prefix, fn="t2",
                           params=dict(S=48, prefix=prefix, rsv=rsv, oldlens=[0, 4],
                                       lens=[2, 9, "cap"], long=True)))
+    # ---- the application repeats the write through the same tag object after
+    # the cut; the repeated write is cut at every point or completes
+    R = dict(retry=True)
+    parts.append(dict(name="retry:t1:static", fn="t1",
+                      params=dict(hr=[0x11, 0x48], size=120, prefix="N", rsv=[], oldlens=[4],
+                                  lens=[5, 9], long=True, **R)))
+    parts.append(dict(name="retry:t1:dyn", fn="t1",
+                      params=dict(hr=[0x12, 0x4C], size=512, prefix="", rsv=[], oldlens=[9],
+                                  lens=[12, 20] + ([255] if tier != "quick" else []), long=True, **R)))
+    parts.append(dict(name="retry:t2:48", fn="t2",
+                      params=dict(S=48, prefix="N", rsv=[], oldlens=[5], lens=[6, 11], long=True, **R)))
+    parts.append(dict(name="retry:t3", fn="t3",
+                      params=dict(nbr=4, nbw=1, nmaxb=5, oldlens=[17], lens=[16, 33], emulated=False, **R)))
+    parts.append(dict(name="retry:t3emu", fn="t3",
+                      params=dict(nbr=4, nbw=3, nmaxb=5, oldlens=[17], lens=[33], emulated=True, **R)))
+    if tier != "quick":
+        parts.append(dict(name="retry:t2:496", fn="t2",
+                          params=dict(S=496, prefix="NN", rsv=[], oldlens=[255], lens=[40, 256],
+                                      long=True, **R)))
     return parts
 
 
 MUST_REACH = ["cut", "cut_before_first_write", "write_completed_without_cut",
               "after_cut_empty", "after_cut_old_or_new", "length_field_straddles_write_unit",
-              "after_cut_not_readable"]
-BOUNDS = {"quick": "T2: 48- and 496-byte data areas, NDEF TLV at offsets 0..3 mod 4, old/new lengths on both sides of 254/255, cut before every WRITE",
+              "after_cut_not_readable", "retry_completed", "retry_cut"]
+BOUNDS = {"quick": "T2: 48- and 496-byte data areas, NDEF TLV at offsets 0..3 mod 4, old/new lengths on both sides of 254/255, cut before every WRITE; one repetition of the same write through the same tag object after the cut (Type 1 static/dynamic, Type 2, Type 3 and its emulation), itself cut at every point or completed",
           "thorough": "as quick with every new length for the 48-byte area"}
-OUTSIDE = ["torn writes inside one command", "tags that change memory on a failed command"]
+OUTSIDE = ["torn writes inside one command", "tags that change memory on a failed command",
+           "a repeated write after the cut on a Type 4 Tag (the ISO-DEP state after a failed exchange is the known finding of C12)",
+           "more than one repetition; a different message in the repetition"]
 ASSUMPTIONS = ["power cut = the tag stops answering before a state-changing command; memory keeps the effect of all earlier commands"]
 
 LIMITS = {"thorough": dict(max_time=3000)}
